@@ -301,6 +301,13 @@ def run(tier):
             ck.finding("R23.function-declarations-hoisted", "R23.function-declarations-hoisted/%s" % f23.path, F.short_span(sp23),
                        "`%s` compiles the statements of a list in order without creating the list's function declarations first: `f(); function f() {}` "
                        "throws `f is not defined` (program, function body, block, catch / finally, switch, namespace body alike)" % f23.path)
+    for f23, forms23 in fnhoist.hoister_forms(fx, lambda g: g.file.startswith("src/compiler")):
+        ok23 = {"FunctionDeclaration", "Export"} <= forms23
+        ck.instance("R23.function-declarations-hoisted", "%s hoists %s" % (f23.path, ", ".join(sorted(forms23))), F.short_span(f23.span), ok=ok23)
+        if not ok23:
+            ck.finding("R23.function-declarations-hoisted", "R23.function-declarations-hoisted/%s/forms" % f23.path, F.short_span(f23.span),
+                       "`%s` hoists only %s: a function declared with `export function g() {}` (in a module or a namespace body) is created where the statement stands, "
+                       "so `export const v = g(); export function g() { return 1 }` throws `g is not defined`" % (f23.path, ", ".join(sorted(forms23)) or "nothing"))
     # ---- R22 nested function compilers inherit the class context
     import nestedcomp
     ck.rule("R22.nested-compilers-inherit-context", "every function that creates the compiler of a nested function body copies into it each Compiler field (other than the "
